@@ -2,7 +2,7 @@
 """Regenerates /verif/MANIFEST.json from the table below (one place to edit)."""
 import json, subprocess
 
-HOOK_COMMITS = ["630d187"]
+HOOK_COMMITS = ["630d187", "016cd5f"]
 
 # id -> (technique, level text, level note, design ref)
 CHECKS = {
